@@ -56,6 +56,12 @@ func FeedLog(ctx context.Context, l config.Log, w feeder.Witness, c *http.Client
 		if from.Size == 0 {
 			return [][]byte{}, nil
 		}
+		// tlog's proof construction overflows (and then never terminates) for trees
+		// of more than 2^62 entries; no real log is that large, so refuse such a
+		// checkpoint rather than spin on a hostile one.
+		if to.Size >= 1<<62 {
+			return nil, fmt.Errorf("checkpoint size %d is too large", to.Size)
+		}
 		var h [32]byte
 		copy(h[:], to.Hash)
 		tree := tlog.Tree{
